@@ -3225,6 +3225,167 @@ def c16_arg_index(env, ob):
 
 
 # ---------------------------------------------------------------------------------------------------------------------
+# C05: one `next()` of the row-pipeline operators (LIMIT / OFFSET, WHERE, DISTINCT) from an arbitrary operator state
+# ---------------------------------------------------------------------------------------------------------------------
+def _final_field(path, idx_):
+    ff = getattr(path, "final_frame", None)
+    me_ = ff.cells.get("_1").val if ff is not None and ff.cells.get("_1") is not None else None
+    obj = me_.cell.val if isinstance(me_, Ref) else None
+    c = obj.fields.get(str(idx_)) if isinstance(obj, Agg) else None
+    return c.val if c is not None else None
+
+
+def _ok_some(rv):
+    """(is Ok(Some), is Ok(None), payload Agg) of a Result<Option<Row>, _> return value built by the function"""
+    if not isinstance(rv, Agg) or rv.disc is None or mirsmt.const_of(rv.disc.term) != 0:
+        return False, False, None
+    okv = rv.variants.get("Ok")
+    inner = okv.val.fields.get("0").val if okv is not None and isinstance(okv.val, Agg) and okv.val.fields.get("0") is not None else None
+    if not isinstance(inner, Agg):
+        return False, False, None
+    if inner.disc is not None and mirsmt.const_of(inner.disc.term) == 0:
+        return False, True, None
+    if inner.disc is not None and mirsmt.const_of(inner.disc.term) == 1:
+        pay = inner.variants.get("Some")
+        return True, False, (pay.val.fields.get("0").val if pay is not None and isinstance(pay.val, Agg) and pay.val.fields.get("0") is not None else None)
+    return False, False, None
+
+
+def _child_next(path):
+    return [e for e in path.events if re.search(r"<Child as Executor>::next$", e["callee"])]
+
+
+def _row_of(ev):
+    """symbolic name of the row a child.next() call yielded"""
+    return ev["ret"].name + "@Ok.0@Some.0" if isinstance(ev["ret"], Agg) and ev["ret"].name else None
+
+
+@obligation(id="C05.limit_offset_step", funcs="<Limit as Executor>::next",
+            bounds="ONE call of Limit::next from an arbitrary operator state (limit, offset, rows already skipped / produced "
+                   "symbolic 64-bit counters); the skip loop unrolled twice (longer skips repeat the body); the child is "
+                   "abstract (any row, end of input, or error at every call)", native="c05_limit_offset_distinct_where")
+def c05_limit_step(env, ob):
+    """LIMIT n OFFSET k: a row is handed on only when k rows have been skipped before it and fewer than n were produced;
+    it is the row the child just yielded (never a skipped one); the produced counter advances by exactly one; None is
+    answered only at the limit or when the child is exhausted - never with a consumed row in hand."""
+    names = env.struct_fields("runtime/ops/limit.rs", "Limit")
+    ix = {n: i for i, n in enumerate(names)}
+    ctx, f, args, res = explore(env, "runtime/ops/limit.rs", "next", loop_bound=2)
+    me0 = args[0].cell.val
+    lim, off = (me0.field_cell(str(ix[k]), "usize").val.term for k in ("limit", "offset"))
+    cur0, skp0 = (me0.field_cell(str(ix[k]), "usize").val.term for k in ("current", "skipped"))
+    qs, tags = [], []
+    n_some = 0
+    for path, rv in res:
+        if path.cut or path.panics:
+            continue
+        some, none, row = _ok_some(rv)
+        calls = _child_next(path)
+        pc = conj(path.pc)
+        if some:
+            n_some += 1
+            skp1 = _final_field(path, ix["skipped"])
+            cur1 = _final_field(path, ix["current"])
+            if not isinstance(skp1, Leaf) or not isinstance(cur1, Leaf) or not calls:
+                qs.append(pc); tags.append("row_produced_without_asking_the_child")
+                continue
+            qs.append(conj([pc, f"(bvult {skp1.term} {off})"])); tags.append("row_produced_before_the_offset_was_skipped")
+            qs.append(conj([pc, f"(bvule {skp0} {off})", f"(not (= {skp1.term} {off}))"])); tags.append("more_rows_skipped_than_the_offset")
+            qs.append(conj([pc, f"(not (bvult {cur0} {lim}))"])); tags.append("row_produced_beyond_the_limit")
+            qs.append(conj([pc, f"(not (= {cur1.term} (bvadd {cur0} {bvconst(1, 64)})))"])); tags.append("produced_counter_does_not_advance_by_one")
+            last = _row_of(calls[-1])
+            if not (isinstance(row, Agg) and row.name and last and row.name.startswith(last)):
+                qs.append(pc); tags.append("row_handed_on_is_not_the_row_the_child_just_yielded")
+        elif none:
+            if calls:
+                r = calls[-1]["ret"]
+                inner_some = f"(= {ctx.smtname(r.name + '@Ok.0#d')} {bvconst(1, 64)})" if ctx.smtname(r.name + "@Ok.0#d") in ctx.decls else "false"
+                # (a row consumed while skipping is meant to be dropped: with the limit already reached None is right)
+                qs.append(conj([pc, ret_is_ok(r), inner_some, f"(bvult {cur0} {lim})"])); tags.append("end_of_rows_answered_with_a_consumed_row_in_hand")
+            else:
+                qs.append(conj([pc, f"(bvult {cur0} {lim})"])); tags.append("end_of_rows_answered_below_the_limit_without_asking_the_child")
+    if not n_some:
+        return result(ob, "inconclusive", reason="vacuity: no path of Limit::next produces a row", paths=len(res))
+    chk = env.check(ctx, qs)
+    bad = sorted({t for t, c in zip(tags, chk) if c["verdict"] == "sat"})
+    inc = [c["verdict"] for c in chk if c["verdict"] not in ("sat", "unsat")]
+    kw = dict(paths=len(res), queries=len(qs))
+    if bad:
+        return result(ob, "violated", failed=bad, cex={"what": "one call of Limit::next breaks LIMIT / OFFSET"}, **kw)
+    if inc:
+        return result(ob, "inconclusive", reason=inc[0], **kw)
+    return result(ob, "discharged", **kw)
+
+
+def _gate_step(env, ob, rel, gate_rx, what):
+    """Filter / HashDistinct: a row is handed on only if the gate (predicate / first-occurrence test) said yes for THAT row;
+    None only when the child is exhausted."""
+    ctx, f, args, res = explore(env, rel, "next", loop_bound=2)
+    qs, tags, n_some = [], [], 0
+    for path, rv in res:
+        if path.cut or path.panics:
+            continue
+        some, none, row = _ok_some(rv)
+        calls = _child_next(path)
+        pc = conj(path.pc)
+        if some:
+            n_some += 1
+            last = _row_of(calls[-1]) if calls else None
+            if not (isinstance(row, Agg) and row.name and last and row.name.startswith(last)):
+                qs.append(pc); tags.append("row_handed_on_is_not_the_row_the_child_just_yielded")
+                continue
+            k = path.events.index(calls[-1])
+            gates = [e for e in path.events[k:] if callee_is(e, gate_rx)]
+            if not gates:
+                qs.append(pc); tags.append(f"row_handed_on_without_{what}")
+                continue
+            g = gates[-1]["ret"]
+            yes = None
+            if isinstance(g, Leaf):
+                yes = g.term
+            elif isinstance(g, Agg):
+                b = ctx.smtname(g.name + "@Ok.0")
+                yes = f"(and {ret_is_ok(g)} {b})" if b in ctx.decls else None
+            if yes is None:
+                qs.append(pc); tags.append(f"row_handed_on_without_{what}")
+            else:
+                qs.append(conj([pc, f"(not {yes})"])); tags.append(f"row_handed_on_although_{what}_said_no")
+        elif none:
+            if not calls:
+                qs.append(pc); tags.append("end_of_rows_answered_without_asking_the_child")
+            else:
+                r = calls[-1]["ret"]
+                d = ctx.smtname(r.name + "@Ok.0#d")
+                inner_some = f"(= {d} {bvconst(1, 64)})" if d in ctx.decls else "false"
+                qs.append(conj([pc, ret_is_ok(r), inner_some])); tags.append("end_of_rows_answered_with_a_consumed_row_in_hand")
+    if not n_some:
+        return result(ob, "inconclusive", reason="vacuity: no path produces a row", paths=len(res))
+    chk = env.check(ctx, qs)
+    bad = sorted({t for t, c in zip(tags, chk) if c["verdict"] == "sat"})
+    inc = [c["verdict"] for c in chk if c["verdict"] not in ("sat", "unsat")]
+    kw = dict(paths=len(res), queries=len(qs))
+    if bad:
+        return result(ob, "violated", failed=bad, cex={"what": "one call of next() hands on a row it should not / drops one"}, **kw)
+    if inc:
+        return result(ob, "inconclusive", reason=inc[0], **kw)
+    return result(ob, "discharged", **kw)
+
+
+@obligation(id="C05.where_step", funcs="<Filter as Executor>::next",
+            bounds="ONE call of Filter::next, loop unrolled twice; child and predicate evaluation abstract",
+            native="c05_limit_offset_distinct_where")
+def c05_where_step(env, ob):
+    return _gate_step(env, ob, "runtime/ops/filter.rs", r"ExpressionEvaluator::<.*>::evaluate_as_bool$|evaluate_as_bool$", "the_predicate")
+
+
+@obligation(id="C05.distinct_step", funcs="<HashDistinct as Executor>::next",
+            bounds="ONE call of HashDistinct::next, loop unrolled twice; child and the seen-set abstract",
+            native="c05_limit_offset_distinct_where")
+def c05_distinct_step(env, ob):
+    return _gate_step(env, ob, "runtime/ops/distinct.rs", r"HashSet::<.*>::insert$", "the_first_occurrence_test")
+
+
+# ---------------------------------------------------------------------------------------------------------------------
 # C16: the lexer's loops stop at the end of the input
 # ---------------------------------------------------------------------------------------------------------------------
 LEXER = "sql/parser/lexer.rs"
